@@ -21,7 +21,8 @@ def _isnan(x):
 
 def one_run(args):
     """one optimizer, one mask over the first k objective calls, one non-finite kind (or 'mix')"""
-    name, kind, mask, k, seed, n_extra = args
+    name, kind, mask, k, seed, n_extra = args[:6]
+    memory = args[6] if len(args) > 6 else False
     import warnings
     warnings.filterwarnings("ignore")
     import logging
@@ -46,7 +47,7 @@ def one_run(args):
         opt = cls(space, initialize={"random": 2, "vertices": 2}, random_state=seed, **kw)
         n_iter = k + n_extra
         with scen.time_limit(scen.WATCHDOG_S):
-            opt.search(f, n_iter=n_iter, memory=False, verbosity=False)
+            opt.search(f, n_iter=n_iter, memory=memory, verbosity=False)
     except scen.StepTimeout:
         return dict(args=args, status="timeout")
     except C.Infra:
@@ -74,9 +75,9 @@ def one_run(args):
     return out
 
 
-def mask_sweep(quick):
+def mask_sweep(quick, names=None, seeds=(3,), memories=(False,), extra=4):
     jobs = []
-    for name in gen.ALL_OPTIMIZERS:
+    for name in (names or gen.ALL_OPTIMIZERS):
         heavy = name in gen.SMBO
         k = (4 if heavy else 6) if quick else (8 if heavy else 10)
         kinds = ["nan", "inf", "-inf"] + ([] if quick and heavy else ["mix"])
@@ -85,13 +86,15 @@ def mask_sweep(quick):
             for mask in range(1 << k):
                 if quick and heavy and kind != "nan" and bin(mask).count("1") not in (1, k, k - 1, 4):
                     continue
-                jobs.append((name, kind, mask, k, 3, 4))
+                for sd in seeds:
+                    for mem in memories:
+                        jobs.append((name, kind, mask, k, sd, extra, mem))
     fails, keys = [], set()
     n = 0
     with ProcessPoolExecutor(max_workers=14) as ex:
         for res in ex.map(one_run, jobs, chunksize=16):
             n += 1
-            name, kind, mask, k, seed, extra = res["args"]
+            name, kind, mask, k, seed, extra = res["args"][:6]
             n_init = 4
             all_init_bad = (mask & ((1 << min(k, n_init)) - 1)) == (1 << min(k, n_init)) - 1
             case = dict(optimizer=name, kind=kind, mask=mask, k=k, seed=seed, n_iter=k + extra, space="x0: arange(12), x1: [0.5,0.25,1,2,4]",
@@ -123,6 +126,14 @@ def tracker_runs(r, quick):
     return n_ops, dis, keys
 
 
+def escalate(chk, names):
+    """something broke and the sweep found nothing new: the same exhaustive masks for the optimizers the broken cases name (all of them
+    when none is named) with other seeds, memory on as well, and longer calls after the masked prefix"""
+    names = [n for n in names if n in gen.ALL_OPTIMIZERS] or None
+    n, fails, keys = mask_sweep(True, names=names, seeds=(5, 11), memories=(False, True), extra=14)
+    chk.monitor("ESCALATED search (a translator or correspondence broke): all masks again with other seeds, memory on / off, longer calls", n, fails, keys)
+
+
 def run():
     chk = Check("C15", props_modules=["GFO.Props.C15", "GFO.Props.LocalRuns", "GFO.Props.PopRuns", "GFO.Props.EvoRuns", "GFO.Props.PatternRuns", "GFO.Props.PowellRuns", "GFO.Props.SimplexRuns", "GFO.Props.DirectRuns", "GFO.Props.EvalTotal", "GFO.Gen.TrackerGenCheck"], gen_steps=(translators.gen_tracker,))
     chk.build_and_audit()
@@ -146,5 +157,7 @@ def run():
     localgen.add_powell_to(chk, C.rng("C15-powell"), C.T(20, 200), constraint_p=0.3, nonfinite_p=1.0)
     localgen.add_simplex_to(chk, C.rng("C15-simplex"), C.T(20, 200), constraint_p=0.3, nonfinite_p=1.0)
     localgen.add_direct_to(chk, C.rng("C15-direct"), C.T(20, 200), constraint_p=0.3, nonfinite_p=1.0)
+    if chk.needs_escalation():
+        chk.stage("escalated search", escalate, chk, chk.broken_opts())
     scen.shutdown_manager()
     return chk.finish()
